@@ -387,6 +387,9 @@ pub fn run(args: &Args) {
     for (k, (mut prog, ind)) in crate::c01::lookalike_programs().into_iter().enumerate() {
         programs.push((format!("lookalike:{}", k), crate::c01::print_program_with_indents(&mut prog, &ind)));
     }
+    for (k, mut prog) in crate::c01::empty_block_programs().into_iter().chain(crate::c01::case_list_programs().into_iter()).enumerate() {
+        programs.push((format!("fixed:{}", k), crate::c01::print_program(&mut prog)));
+    }
     for (name, mut prog) in crate::c01::nest_matrix(&mut rng, args.thorough(), 30) {
         programs.push((name.replace(' ', ":"), crate::c01::print_program(&mut prog)));
     }
@@ -399,6 +402,11 @@ pub fn run(args: &Args) {
                     sum.count("rejected_by_parser_or_checker");
                 } else {
                     sum.count("front_end_panic");
+                    // accepted by parser and checker, but no instruction list comes back (for instance a
+                    // branch target that cannot be resolved): the code generator's part of the property
+                    if e.starts_with("panic") && !origin.starts_with("corpus") {
+                        sum.violation(ImplViolation { key: "no-instruction-list".into(), input: format!("{} {}", origin, src.replace('\n', " | ").chars().take(400).collect::<String>()), expected: "an instruction list with every target resolved".into(), observed: e.chars().take(200).collect() });
+                    }
                 }
                 if std::env::var("VH_DEBUG").is_ok() {
                     eprintln!("REJECT {} :: {} :: {}", origin, e.chars().take(200).collect::<String>(), src.replace('\n', " | ").chars().take(300).collect::<String>());
